@@ -364,6 +364,15 @@ func overlay(repo, verif, out string) {
 		die("walk %s: %v", ov, err)
 	}
 
+	// 3. the Go runtime's two coins the simulator has to own: which ready case a select takes, and the
+	// seeds / iteration offsets of maps. Both are moved from per-thread random state to one process-wide
+	// counter stream (verifRandState) that the worker seeds from VERIF_SEED; the start-up entropy is fixed
+	// so that string hashing is the same in every process.
+	goroot := os.Getenv("VERIF_GOROOT")
+	if goroot != "" {
+		patchRuntime(goroot, out, replace)
+	}
+
 	keys := make([]string, 0, len(replace))
 	for k := range replace {
 		keys = append(keys, k)
@@ -376,4 +385,76 @@ func overlay(repo, verif, out string) {
 	for _, k := range keys {
 		fmt.Printf("overlay: %s -> %s\n", k, replace[k])
 	}
+}
+
+func patchRuntime(goroot, out string, replace map[string]string) {
+	sub := func(file string, edits [][2]string) {
+		src := filepath.Join(goroot, "src", filepath.FromSlash(file))
+		b, err := os.ReadFile(src)
+		if err != nil {
+			die("runtime patch: %v", err)
+		}
+		t := string(b)
+		for _, e := range edits {
+			if strings.HasPrefix(e[0], "ALL:") {
+				if !strings.Contains(t, e[0][4:]) {
+					die("runtime patch: %s: anchor %q not found", file, e[0])
+				}
+				t = strings.ReplaceAll(t, e[0][4:], e[1])
+				continue
+			}
+			if strings.Count(t, e[0]) != 1 {
+				die("runtime patch: %s: anchor %q found %d times", file, e[0], strings.Count(t, e[0]))
+			}
+			t = strings.Replace(t, e[0], e[1], 1)
+		}
+		if _, err := parser.ParseFile(token.NewFileSet(), src, t, parser.AllErrors); err != nil {
+			die("runtime patch: %s does not parse: %v", file, err)
+		}
+		dst := filepath.Join(out, "goroot", filepath.FromSlash(file))
+		if err := os.MkdirAll(filepath.Dir(dst), 0o755); err != nil {
+			die("%v", err)
+		}
+		if err := os.WriteFile(dst, []byte(t), 0o644); err != nil {
+			die("%v", err)
+		}
+		replace[src] = dst
+	}
+	sub("runtime/rand.go", [][2]string{
+		{"	\"internal/goarch\"\n", "	\"internal/goarch\"\n	\"internal/runtime/atomic\"\n"},
+		{"	globalRand.state.Init(*seed)\n", "	for i := range seed {\n		seed[i] = byte(i*7 + 1) // verif: fixed start-up entropy\n	}\n	globalRand.state.Init(*seed)\n"},
+		{"func maps_rand() uint64 {\n	return rand()\n}", `func maps_rand() uint64 {
+	return verifrand()
+}
+
+// verifRandState is the simulator-owned stream behind select's case order and map seeds.
+var verifRandState uint64
+
+// verifRandOutside serves goroutines that are not in the synctest bubble (test framework, finalizers,
+// signal loop): when they run depends on the wall clock, so they must not draw from the bubble's stream.
+var verifRandOutside uint64
+
+func verifrand() uint64 {
+	p := &verifRandState
+	if getg().bubble == nil {
+		p = &verifRandOutside
+	}
+	s := atomic.Xadd64(p, 0x5851f42d4c957f2d)
+	hi, lo := math.Mul64(s|1, s^0xe7037ed1a0b428db)
+	return hi ^ lo
+}`},
+	})
+	// map hash seeds are constant: how many maps a run creates depends on sync.Pool hits, hence on when the
+	// collector ran, hence on the wall clock; the number of map iterations and selects does not.
+	sub("internal/runtime/maps/map.go", [][2]string{
+		{"ALL:m.seed = uintptr(rand())", "m.seed = uintptr(0x9e3779b97f4a7c15 & (1<<(goarch.PtrSize*8-1) - 1))"},
+	})
+	// no wall-clock time slice: sysmon asking a goroutine that "ran for 10 ms" (because the machine was busy)
+	// to yield moves it behind its peers, which is a scheduling decision taken by the load of the host
+	sub("runtime/proc.go", [][2]string{
+		{"const forcePreemptNS = 10 * 1000 * 1000 // 10ms", "const forcePreemptNS = 1 << 60 // verif: never"},
+	})
+	sub("runtime/select.go", [][2]string{
+		{"j := cheaprandn(uint32(norder + 1))", "j := uint32((uint64(uint32(verifrand())) * uint64(uint32(norder+1))) >> 32) // verif"},
+	})
 }
